@@ -105,6 +105,13 @@ Proof. destruct (Z.gtb_spec (Z.of_nat b) (Z.of_nat a)); lia. Qed.
 Lemma zrange_trunc a b : zrange (Z.of_nat a) (Z.of_nat b) = zrange (Z.of_nat a) (Z.of_nat (a + (b - a))).
 Proof. unfold zrange. f_equal. lia. Qed.
 
+Lemma aget_amake junk n k : (k < n)%nat -> aget (amake junk (Z.of_nat n)) (Z.of_nat k) = junk (Z.of_nat k).
+Proof.
+  intros Hk. unfold aget, amake. destruct (Z.ltb_spec (Z.of_nat k) 0); [lia|]. rewrite Nat2Z.id.
+  change 0 with (Z.of_nat 0). change (Z.of_nat n) with (Z.of_nat (0 + n)). rewrite zrange_seq, map_map.
+  rewrite nth_map_seq by exact Hk. reflexivity.
+Qed.
+
 Section Refine.
 Variable u : usettings.
 Variables s1 s2 : list point.
